@@ -1,0 +1,101 @@
+//! Verification-harness hook (cargo feature `verif-hooks`; nothing of this exists without it).
+//!
+//! Every durable write of the key-value store goes through one of three functions:
+//! `RocksDBTransaction::commit`, `RocksDB::write` and `RocksDB::write_sync`.  Each of them calls
+//! [`on_commit`] immediately before and immediately after the write.  Commits are numbered from 1
+//! in process order (the number is taken in the `Before` phase).
+//!
+//! * `VERIF_COMMIT_LOG=<file>`: one line `"<n> <kind> <thread>"` is appended to the file for every
+//!   commit (in the `Before` phase), so that a dry run enumerates the crash points of a scenario.
+//!   The file is opened in append mode for every line; other writers may append their own marker
+//!   lines (by convention starting with `#`).
+//! * `VERIF_CRASH_AT=<n>:<before|after>`: the process calls `std::process::abort()` at that
+//!   point: `before` = commit `n` was not handed to RocksDB, `after` = RocksDB returned from it.
+use std::io::Write;
+use std::sync::OnceLock;
+use std::sync::atomic::{AtomicU64, Ordering};
+
+static COMMITS: AtomicU64 = AtomicU64::new(0);
+
+/// The side of a commit a hook call is on.
+#[derive(Clone, Copy, Debug, PartialEq, Eq)]
+pub enum Phase {
+    /// the write has not been handed to RocksDB yet
+    Before,
+    /// RocksDB has returned from the write
+    After,
+}
+
+fn crash_at() -> Option<(u64, Phase)> {
+    static CRASH_AT: OnceLock<Option<(u64, Phase)>> = OnceLock::new();
+    *CRASH_AT.get_or_init(|| {
+        let v = std::env::var("VERIF_CRASH_AT").ok()?;
+        let (n, p) = v.split_once(':')?;
+        let n: u64 = n.trim().parse().ok()?;
+        let p = match p.trim() {
+            "before" => Phase::Before,
+            "after" => Phase::After,
+            _ => return None,
+        };
+        Some((n, p))
+    })
+}
+
+fn log_path() -> Option<&'static std::path::PathBuf> {
+    static LOG: OnceLock<Option<std::path::PathBuf>> = OnceLock::new();
+    LOG.get_or_init(|| std::env::var_os("VERIF_COMMIT_LOG").map(std::path::PathBuf::from))
+        .as_ref()
+}
+
+/// Number of commits started so far in this process.
+pub fn commit_count() -> u64 {
+    COMMITS.load(Ordering::SeqCst)
+}
+
+/// Called with `n == 0` in the `Before` phase (the number is allocated here and returned) and with
+/// the allocated number in the `After` phase.
+pub fn on_commit(phase: Phase, n: u64, kind: &'static str) -> u64 {
+    let n = match phase {
+        Phase::Before => COMMITS.fetch_add(1, Ordering::SeqCst) + 1,
+        Phase::After => n,
+    };
+    if phase == Phase::Before
+        && let Some(path) = log_path()
+        && let Ok(mut f) = std::fs::OpenOptions::new()
+            .create(true)
+            .append(true)
+            .open(path)
+    {
+        let t = std::thread::current();
+        // one write(2) per line: lines of concurrent committers never interleave (O_APPEND)
+        let line = format!("{} {} {}\n", n, kind, t.name().unwrap_or("?"));
+        let _ = f.write_all(line.as_bytes());
+    }
+    if crash_at() == Some((n, phase)) {
+        eprintln!("verif-hooks: VERIF_CRASH_AT {n}:{phase:?} ({kind}) reached, aborting");
+        std::process::abort();
+    }
+    n
+}
+
+/// Brackets one commit: `new` is the `Before` call, dropping the guard is the `After` call.
+pub struct CommitGuard {
+    n: u64,
+    kind: &'static str,
+}
+
+impl CommitGuard {
+    /// `Before` phase of a commit of the given kind.
+    pub fn new(kind: &'static str) -> Self {
+        CommitGuard {
+            n: on_commit(Phase::Before, 0, kind),
+            kind,
+        }
+    }
+}
+
+impl Drop for CommitGuard {
+    fn drop(&mut self) {
+        on_commit(Phase::After, self.n, self.kind);
+    }
+}
